@@ -358,4 +358,7 @@ def Text_generateNonce : Prop := text_generateNonce = expectedText_generateNonce
 def expectedText_handleError : List String := ["http.Error(w, message, code)"]
 def Text_handleError : Prop := text_handleError = expectedText_handleError
 
+def expectedText_generateSecureRandomString : List String := ["bytes := make([]byte, length)", "if _, err := rand.Read(bytes); err != nil { return \"\", fmt.Errorf(\"failed to generate random bytes: %w\", err) }", "return hex.EncodeToString(bytes), nil"]
+def Text_generateSecureRandomString : Prop := text_generateSecureRandomString = expectedText_generateSecureRandomString
+
 end Oidc.Shapes
